@@ -1,7 +1,9 @@
 SPECIFICATION Spec
 CONSTANTS MaxLen = 2
   Vocabulary <- AllElements
+  Contexts <- InitsQuick
 INVARIANT OpEqDen
+INVARIANT IncomingKept
 INVARIANT RunTimeWins
 INVARIANT AffixOnce
 INVARIANT PendingOnce
